@@ -44,3 +44,8 @@ claim("C11", "acquire/release pairing queries over go/cfg exits with error nil-n
       "Decides: each scope's limiter is built from its own constructor list; on every control-flow exit after a successful Take* the permit is released with the same key or owned by an object whose Close releases it (endpoint session = C03.R5, remote Start/Close, connectionForDomain, every iteration of the Close loop); roll-back in Group.TakeMsg and MultiLimit releases exactly the stages/prefix acquired; no limiter that may be absent is dereferenced; staleness comparisons have the satisfiable direction. The run-time count of holders is not explored.",
       "trusts go/types, go/cfg; two named infeasible-path exceptions with mechanically checked side-conditions (DESIGN.md §2.3)", "DESIGN.md §3 C11")
 PENDING.pop("C11", None)
+
+claim("C09", "value provenance over go/ssa (def-use chains through static callees, closures, struct fields with program-wide store enumeration, reaching definitions for local cells) of every SetStatus key; control-flow rules for status-all loops, skip counters and translating collectors",
+      "Decides for every SetStatus call site of the server that the key is value-identical to an argument of the same object's AddRcpt/Rcpt (only elements of a list whose every store appends the unmodified parameter); lists on objects that outlive a transaction are reset at transaction start; accepting methods append once; a status-all loop is final; a skip counter advances on every reporting path of the callback; rewriting layers translate back and never twice. The next hop's own reply count/order is not decided.",
+      "trusts go/types, go/ssa, go/cfg; go-smtp's LMTP client reports statuses in acceptance order (read in the pinned version)", "DESIGN.md §3 C09")
+PENDING.pop("C09", None)
